@@ -92,6 +92,20 @@ func (g *gen) bv(depth int, w int) (*T, *T) {
 		x1, x2 := g.bv(depth-1, w)
 		y1, y2 := g.bv(depth-1, w)
 		return g.a.Ite(c1, x1, y1), g.b.Ite(c2, x2, y2)
+	case 12: // (ext(a) * c) div/rem c
+		if w == 64 {
+			nw := []int{8, 16, 32}[g.r.Intn(3)]
+			x1, x2 := g.bv(depth-1, nw)
+			c := []uint64{1000000000, 1000, 3, 1 << 31, (1 << 31) - 1, 1<<63 + 5, ^uint64(0), uint64(g.r.Intn(70))}[g.r.Intn(8)]
+			op := []Op{OSDiv, OSRem, OUDiv, OURem}[g.r.Intn(4)]
+			var e1, e2 *T
+			if g.r.Intn(2) == 0 {
+				e1, e2 = g.a.ZExt(x1, w), g.b.ZExt(x2, w)
+			} else {
+				e1, e2 = g.a.SExt(x1, w), g.b.SExt(x2, w)
+			}
+			return g.a.Bin(op, g.a.Bin(OMul, e1, g.a.Const(w, c)), g.a.Const(w, c)), g.b.Bin(op, g.b.Bin(OMul, e2, g.b.Const(w, c)), g.b.Const(w, c))
+		}
 	case 11: // byte reassembly pattern
 		if w >= 16 {
 			src1, src2 := g.bv(depth-1, w)
